@@ -13,10 +13,11 @@ RULE = ('all 168 (version, level) block layouts x contents x fault patterns: the
         'exact data codewords and payload; faults are applied to the output, never to the encoder; distinct = '
         '(version, level, pattern kind) combinations with at least one corrupted codeword')
 ASSUMPTIONS = common.ASSUME_QR + ['the bound floor(ec/2) itself is Reed-Solomon theory, error patterns are sampled']
-REQUIRED = ['evaluations', 'encode_observed', 'symbols_decoded', 'fault_trials', 'codewords_corrupted',
+REQUIRED = ['cases_under_python_O', 'evaluations', 'encode_observed', 'symbols_decoded', 'fault_trials', 'codewords_corrupted',
             'all_168_layouts_observed']
 EXHAUSTIVE = {'quick': '(version, level) block layouts: 168 of 168', 'thorough': '(version, level) block layouts: 168 of 168'}
 TIMEOUT = {'quick': 3600, 'thorough': 21600}
+OPT_SLICE = {'quick': 120, 'thorough': 1500}     # cases re-run by one more worker under python -O (core.run_sharded)
 PATTERNS = ['uniform', 'burst', 'data-only', 'ec-only', 'max-weight', 'single']
 
 
